@@ -55,13 +55,10 @@ contract(RULE, 'Prettier._deco_repeat', 'C12', types={'rep': 'str', 'return': 's
 	ensures=["implies(rep == 'off', result == pretty_patterns)", "implies(rep == '[]', result == '[' + pretty_patterns + ']')",
 		"implies(rep != 'off' and rep != '[]', result == '(' + pretty_patterns + ')' + rep)"])
 
-ref('PatEntry')
-ref('Memo')
-record('Rules', {'_rules': 'dict[str, PatEntry]', '_memo': 'Memo'}, source=(RULE, 'Rules'))
-contract(RULE, 'Rules.unwrap_by', 'C12', types={'self': 'Rules', 'return': 'str'},
-	ensures=["(result == 'off') == (symbol in self._rules)", "(result == '1') == (symbol not in self._rules and symbol + '[1]' in self._rules)",
+contract(RULE, 'Rules.unwrap_by', ['C12', 'C11'], types={'self': 'Rules', 'return': 'str'},
+	ensures=["result == unwrap_of(self, symbol)", "(result == 'off') == (symbol in self._rules)", "(result == '1') == (symbol not in self._rules and symbol + '[1]' in self._rules)",
 		"result == 'off' or result == '1' or result == '*'"])
-contract(RULE, 'Rules.__getitem__', 'C12', types={'self': 'Rules', 'return': 'PatEntry'},
+contract(RULE, 'Rules.__getitem__', ['C12', 'C11'], types={'self': 'Rules', 'return': 'PatEntry'},
 	raises={'KeyError': "symbol not in self._rules and symbol + '[1]' not in self._rules and symbol + '[*]' not in self._rules"},
 	ensures=[
 		# the pattern of a symbol is found under the name the rebuild gave its rule: plain, or with the unwrap marker
